@@ -1363,6 +1363,8 @@ class ValueCounts(ReductionConstantDim):
     reduction_chunk = M.value_counts
     reduction_aggregate = methods.value_counts_aggregate
     reduction_combine = methods.value_counts_combine
+    # The counted values live in the index of every chunk
+    shuffle_by_index = True
 
     @functools.cached_property
     def _meta(self):
